@@ -7,6 +7,7 @@ PY2 = python_version_tuple()[0] == "2"
 
 import re
 import codecs
+import unicodedata
 from functools import partial
 
 from ural.utils import quote
@@ -121,10 +122,31 @@ UNSAFE_FOR_PATH = b" %/?#"
 UNSAFE_FOR_QUERY_ITEM = b" %&=#"
 UNSAFE_FOR_FRAGMENT = b" %"
 
+NON_ASCII_RE = re.compile("[^\x00-\x7f]")
+NETLOC_DELIMITERS = "/?#@:"
+
+
+def quote_netloc_lookalike_match(match):
+    c = match.group(0)
+    n = unicodedata.normalize("NFKC", c)
+
+    if n != c and any(d in n for d in NETLOC_DELIMITERS):
+        return quote(c)
+
+    return c
+
+
 # NOTE: those method should only be used on parsed urls to canonicalize/normalize.
-safely_unquote_auth_item = partial(
-    unquote, only_printable=True, normalize_space=True, unsafe=UNSAFE_FOR_AUTH_ITEM
-)
+def safely_unquote_auth_item(string):
+    string = unquote(
+        string, only_printable=True, normalize_space=True, unsafe=UNSAFE_FOR_AUTH_ITEM
+    )
+
+    # NOTE: urlsplit refuses a netloc containing characters whose NFKC form
+    # holds a netloc delimiter (e.g. a fullwidth "@"), so they must stay quoted
+    return NON_ASCII_RE.sub(quote_netloc_lookalike_match, string)
+
+
 safely_unquote_path = partial(
     unquote, only_printable=True, normalize_space=True, unsafe=UNSAFE_FOR_PATH
 )
